@@ -130,7 +130,14 @@ fn exec_case(p: &mut proxy::Proxy, spec: &CaseSpec) -> CaseOut {
     let st = parse_stream(&st);
     let mut runs: Vec<String> = Vec::new();
     for pl in &spec.plans {
-        if let Plan::JoinAt(offs) = pl {
+        if let Plan::JoinFault = pl {
+            let (c, _) = p.exec("e2e cycle 1");
+            if let Ok(c) = c.trim().parse::<usize>() {
+                for off in 0..=c {
+                    runs.push(format!("fprobe {}", off));
+                }
+            }
+        } else if let Plan::JoinAt(offs) = pl {
             for off in offs {
                 runs.push(format!("join {}", off));
             }
@@ -166,8 +173,20 @@ fn exec_case(p: &mut proxy::Proxy, spec: &CaseSpec) -> CaseOut {
         let r = if bigk && r == "full" { "probe".to_string() } else { r };
         let mut op = format!("e2e {}", r);
         let (mut obs, fails) = p.exec(&op);
-        if obs == "TIMEOUT" && r.starts_with("jprobe") {
+        if obs == "TIMEOUT" && (r.starts_with("jprobe") || r.starts_with("fprobe") || r.starts_with("mprobe")) {
             obs = "done".to_string();
+        }
+        // a time-out cannot be predicted by the model: the run becomes an oracle-only probe (the oracle failure
+        // `...:hang` stays and decides), so that the line comparison is not what reports it
+        if obs == "TIMEOUT" && r.starts_with("mask ") {
+            op = format!("e2e {}", r.replacen("mask", "mprobe", 1));
+            obs = "done".to_string();
+            out.counts.push(format!("{}:timeouts", prop));
+        }
+        if obs == "TIMEOUT" && r.starts_with("join ") {
+            op = format!("e2e {}", r.replacen("join", "jprobe", 1));
+            obs = "done".to_string();
+            out.counts.push(format!("{}:timeouts", prop));
         }
         if obs == "TIMEOUT" && (r == "full" || r == "probe") {
             // a hang cannot be predicted by the model (D15 depends on flate2's buffering): the run is
@@ -226,7 +245,9 @@ fn run(ctx: &mut Ctx, _eng: &mut dyn Engine) {
     let nworkers: usize = std::env::var("E2E_WORKERS").ok().and_then(|x| x.parse().ok()).unwrap_or(12);
     let next = AtomicUsize::new(0);
     let results: Mutex<Vec<Option<CaseOut>>> = Mutex::new((0..cases.len()).map(|_| None).collect());
-    let base = Duration::from_secs(if thorough { 8 } else { 4 });
+    // wall-clock watchdog of one worker operation: 20 checks with 12 workers each may share the machine, so the margin is
+    // two orders of magnitude above what an operation takes (a call that really never returns is still found, later)
+    let base = Duration::from_secs(if thorough { 80 } else { 40 });
     std::thread::scope(|sc| {
         for _ in 0..nworkers {
             sc.spawn(|| {
@@ -288,7 +309,7 @@ fn main() {
     }
     harness_core::engine_main(
         "e2e",
-        || Box::new(ProxyEngine { p: proxy::Proxy::new(Duration::from_secs(8)) }),
+        || Box::new(ProxyEngine { p: proxy::Proxy::new(Duration::from_secs(80)) }),
         run,
     );
 }
